@@ -94,6 +94,7 @@ pub enum Op {
   Contains,
   All,
   Collect,
+  CollectInto,
   OnErrorMap,
   // pass-through operators (not in C03's list, same list semantics = identity)
   Finalize,
@@ -139,6 +140,7 @@ pub const C03_OPS: &[Op] = &[
   Op::Contains,
   Op::All,
   Op::Collect,
+  Op::CollectInto,
   Op::OnErrorMap,
 ];
 
@@ -415,6 +417,15 @@ pub fn sem(op: Op, p: &P, input: &Script, alt: bool) -> Script {
     Op::Collect => {
       if completed {
         same(vec![Val::L(xs.clone())])
+      } else {
+        same(vec![])
+      }
+    }
+    Op::CollectInto => {
+      if completed {
+        let mut v = vec![p.th.clone()];
+        v.extend(xs.iter().cloned());
+        same(vec![Val::L(v)])
       } else {
         same(vec![])
       }
